@@ -218,8 +218,14 @@ def run_ebs(ctx):
     ctx.extra["ebs_truncated_pairs_in_box"] = sum(1 for N, L in pairs[: (maxN + 1) * maxL] if N % L == 0 and N and int(N * (1 / L)) != N // L)
     # (ii) the real make_private
     cases = [{"N": 98, "bs": 2, "poisson": True}, {"N": 98, "bs": 2, "poisson": False}, {"N": 93, "bs": 1, "poisson": True}]
-    for _ in range(ctx.n(25, 300)):
+    for i in range(ctx.n(25, 300)):
         bs = ctx.rng.randint(1, 8)
+        if i % 3 == 2:
+            # a dataset of only a few batches whose size does not divide it: N/len(loader) is then far (>= 1) from the loader's
+            # batch_size, so an expected batch size taken from the wrong quantity is a failing input, not just a disagreement
+            bs = ctx.rng.randint(2, 48)
+            cases.append({"N": ctx.rng.randint(bs + 1, 4 * bs), "bs": bs, "poisson": i % 2 == 0})
+            continue
         cases.append({"N": ctx.rng.randint(bs, 200), "bs": bs, "poisson": ctx.rng.random() < 0.6})
     lines = []
     reals = []
